@@ -47,8 +47,11 @@ def gen_scenario(rng, idx):
     if trigger_free:
         allow = {"index", "multiindex", "schema_dtype", "defaults", "strict", "filter", "ordered", "parsers", "groupby",
                  "coerce", "custom_dtype", "raise_warning", "optional", "unique", "nullable", "df_checks", "subsample", "add_missing"}
+    # a third of the scenarios force the features that make validation rewrite data or override components (coercion, index
+    # components), which the swarm's independent 35 % coins combine too rarely (own stream)
+    force = ("coerce", "index", "multiindex") if kernel.derive(idx, "c06-force").random() < 0.33 else ()
     for _ in range(8):
-        g = world.SpecGen(rng, want_callbacks=0.8, allow=allow, deny=("name_collision",))
+        g = world.SpecGen(rng, want_callbacks=0.8, allow=allow, deny=("name_collision",), force=force)
         spec = g.schema()
         try:
             world.build_schema(spec)
@@ -64,6 +67,9 @@ def gen_scenario(rng, idx):
     if g.feat["subsample"] and spec["backend"] == "pandas":
         mode["head"] = rng.choice([None, 1, 2])
         mode["tail"] = rng.choice([None, 1])
+    # polars head= / tail= stay out of the workloads: PolarsSchemaBackend.subsample de-duplicates with an unordered
+    # `unique()`, so which rows a check sees first (and with n_failure_cases which failure cases are reported) varies from run
+    # to run - the simulator could not replay what it reports (tried: one irreproducible class within the first 1600 scenarios)
     if _uses_drop(spec) and rng.random() < 0.85:
         mode["lazy"] = True
     kinds = ["exc_msg"] + rng.sample([k for k in faults.KINDS if k != "exc_msg"], 4)
